@@ -259,10 +259,13 @@ impl Disconnect {
         }
     }
 
+    /// Reason code and properties are omitted for a normal disconnection without properties
+    fn is_short_form(&self) -> bool {
+        self.reason_code == DisconnectReasonCode::NormalDisconnection && self.properties.is_none()
+    }
+
     fn len(&self) -> usize {
-        if self.reason_code == DisconnectReasonCode::NormalDisconnection
-            && self.properties.is_none()
-        {
+        if self.is_short_form() {
             return 2; // Packet type + 0x00
         }
 
@@ -275,7 +278,8 @@ impl Disconnect {
             let properties_len_len = len_len(properties_len);
             length += properties_len_len + properties_len;
         } else {
-            length += 1;
+            // Disconnect Reason Code + zero property length (write() emits both)
+            length += 2;
         }
 
         length
@@ -283,7 +287,7 @@ impl Disconnect {
 
     pub fn size(&self) -> usize {
         let len = self.len();
-        if len == 2 {
+        if self.is_short_form() {
             return len;
         }
 
@@ -325,7 +329,7 @@ impl Disconnect {
 
         let length = self.len();
 
-        if length == 2 {
+        if self.is_short_form() {
             buffer.put_u8(0x00);
             return Ok(length);
         }
